@@ -387,7 +387,7 @@ var IntFunc = function.New(&function.Spec{
 	RefineResult: refineNonNull,
 	Impl: func(args []cty.Value, retType cty.Type) (cty.Value, error) {
 		bf := args[0].AsBigFloat()
-		if bf.IsInt() {
+		if bf.IsInt() || bf.IsInf() {
 			return args[0], nil
 		}
 		bi, _ := bf.Int(nil)
